@@ -23,11 +23,11 @@ type setting struct {
 }
 
 type resolver struct {
-	store map[string]string // name -> text
-	down  map[string]bool   // per read: outage for this name
-	empty map[string]bool   // per read: answers "" for this name
-	anyErr bool             // outage error is an arbitrary error instead of ErrMissing
-	calls int
+	store  map[string]string // name -> text
+	down   map[string]bool   // per read: outage for this name
+	empty  map[string]bool   // per read: answers "" for this name
+	anyErr bool              // outage error is an arbitrary error instead of ErrMissing
+	calls  int
 }
 
 // E is the world of one E2 run.
@@ -45,20 +45,20 @@ type E struct {
 	baseOpts []ucfg.Option // PathSep, VarExp only (used for building)
 
 	// model evaluation state
-	active    map[string]bool
-	depth     int
-	sawAbsorb bool           // a cycle was absorbed by a default or a resolver during this evaluation
-	sawAltAbsorb bool        // ... by the alternative operator, which looks a name up without evaluating it
-	evalCount map[string]int // how often each root setting was evaluated during this evaluation
-	evalLog   map[string][]string // the outcomes of those evaluations, in order
-	force     bool           // evaluate the contents of containers reached through references
+	active       map[string]bool
+	depth        int
+	sawAbsorb    bool                // a cycle was absorbed by a default or a resolver during this evaluation
+	sawAltAbsorb bool                // ... by the alternative operator, which looks a name up without evaluating it
+	evalCount    map[string]int      // how often each root setting was evaluated during this evaluation
+	evalLog      map[string][]string // the outcomes of those evaluations, in order
+	force        bool                // evaluate the contents of containers reached through references
 }
 
 var (
-	rootNames  = []string{"a", "b", "c", "d", "e", "s.x", "s.y"}
-	envNames   = []string{"g", "h", "a", "s.x"}
-	resNames   = []string{"m", "n", "a", "g", "s.z"}
-	allNames   = []string{"a", "b", "c", "d", "e", "s.x", "s.y", "g", "h", "m", "n", "s.z", "z", "s"}
+	rootNames = []string{"a", "b", "c", "d", "e", "s.x", "s.y"}
+	envNames  = []string{"g", "h", "a", "s.x"}
+	resNames  = []string{"m", "n", "a", "g", "s.z"}
+	allNames  = []string{"a", "b", "c", "d", "e", "s.x", "s.y", "g", "h", "m", "n", "s.z", "z", "s"}
 )
 
 func (e *E) tok() string {
@@ -188,6 +188,9 @@ func valToGo(v *Val) interface{} {
 	case VFloat:
 		return v.F
 	case VList:
+		if len(v.L) == 0 {
+			return []interface{}{}
+		}
 		l := make([]interface{}, len(v.L))
 		for i, x := range v.L {
 			l[i] = valToGo(x)
@@ -230,7 +233,6 @@ func layerToGo(l map[string]*setting) map[string]interface{} {
 func (e *E) mkResolver(i int) func(string) (string, parse.Config, error) {
 	return func(name string) (string, parse.Config, error) {
 		r := e.res[i]
-		r.calls++
 		if r.down[name] {
 			e.R.Fault("resolver outage during a read")
 			if r.anyErr {
